@@ -213,6 +213,8 @@ static void sweep(const std::string& tier, uint64_t seed, unsigned shard, unsign
                 std::vector<std::size_t> lens = strlens;
                 bool edge = f <= 10 || f + 10 >= B;
                 if (edge || (thorough && f % 64 == 0)) lens.insert(lens.end(), biglens.begin(), biglens.end());
+                // strings whose length needs a 5-byte head (>= 65536), where only few bytes are left in the buffer
+                if (B > 64 && f + 9 >= B) { lens.push_back(65536); if (thorough) lens.push_back(70001); }
                 for (auto n : lens) {
                     if (!mine()) continue;
                     Session s; s.start("fd"); s.fill_to(f);
